@@ -175,8 +175,14 @@ fn mix_guess_case(c: &MCase, rec: &mut Rec) {
             &v / v.sum()
         };
         let (pure1, pure2) = (scaled(1.0 / 3.0), scaled(3.0));
+        // close to the critical region a mixture has two dew (and bubble) points at one temperature: only guesses next to the
+        // solution single out one of them
+        let near_critical = c.tr > 0.95;
         for f in [1.0 / 3.0, 0.5, 0.9, 1.1, 2.0, 3.0] {
             for (yn, y) in [("none", None), ("true", Some(&other)), ("x/3", Some(&pure1)), ("3x", Some(&pure2)), ("feed", Some(&xs))] {
+                if near_critical && (!(0.85..=1.15).contains(&f) || yn != "true") {
+                    continue;
+                }
                 match solve(Some(p0 * f), y) {
                     Ok(g) => rec.check("bubble_dew_guess", &format!("{nm}|p_init={f:.3}|x_init={yn}"), vle_distance(&g, &base) / BAND, true, || format!("{nm} point with tp_init = {f:.3} p*, molefracs_init = {yn} differs by {:e}", vle_distance(&g, &base))),
                     Err(_) => rec.skip("bubble/dew with guess fails (conditional)"),
@@ -185,12 +191,19 @@ fn mix_guess_case(c: &MCase, rec: &mut Rec) {
         }
         // composition guess alone
         for (yn, y) in [("true", &other), ("x/3", &pure1), ("3x", &pure2), ("feed", &xs)] {
+            if near_critical && yn != "true" {
+                continue;
+            }
             if let Ok(g) = solve(None, Some(y)) {
                 rec.check("bubble_dew_guess", &format!("{nm}|x_init={yn}"), vle_distance(&g, &base) / BAND, true, || format!("{nm} point with molefracs_init = {yn} differs by {:e}", vle_distance(&g, &base)));
             }
         }
     }
-    // flash with an initial state from a neighbouring pressure / temperature
+    // flash with an initial state from a neighbouring pressure / temperature (not next to the critical region, where the
+    // vanishing difference between the phases amplifies the flash tolerance beyond the band)
+    if c.tr > 0.95 {
+        return;
+    }
     if let (Ok(b), Ok(d)) = (PhaseEquilibrium::bubble_point(eos, t, &xs, None, None, Default::default()), PhaseEquilibrium::dew_point(eos, t, &xs, None, None, Default::default())) {
         let (pb, pd) = (b.vapor().pressure(Contributions::Total), d.vapor().pressure(Contributions::Total));
         if ((pb - pd) / pb).into_value() > 1e-2 {
@@ -344,7 +357,9 @@ pub fn run(ctx: &mut Ctx) {
         if tier == Tier::Thorough && j % 3 != 0 {
             continue;
         }
-        for tr in TRS {
+        // (0.97 and 0.99 of the lower critical temperature: the ideal-gas start of the bubble/dew solvers fails there and the
+        // spinodal fallback is taken)
+        for tr in TRS.into_iter().chain([0.97, 0.99]) {
             for x in [0.05, 0.5, 0.95] {
                 mc.push(MCase { pair: p.clone(), tr, x });
             }
